@@ -57,6 +57,13 @@ func (e *Env) Header(imports string, listType string) {
 	fmt.Fprintf(e.v, "%s\nOpen Scope Z_scope.\nDefinition cases : list %s := [\n", imports, listType)
 }
 
+// Running records the case about to be run (running.json in the output directory): if the implementation brings
+// the process down (a panic in one of its goroutines), that file is the failing input.
+func (e *Env) Running(js interface{}) {
+	b, _ := json.Marshal(js)
+	os.WriteFile(filepath.Join(e.Out, "running.json"), b, 0644)
+}
+
 // Case appends one case: its Gallina term and its JSON form (for replay and samples).
 func (e *Env) Case(gallina string, js interface{}) {
 	if !e.first {
